@@ -15,6 +15,7 @@ sys.argv_backup = sys.argv
 spec.loader.exec_module(ms)
 
 TESTS = '/repo/lib/python/treadmill/tests'
+STABLE = set(json.load(open('/root/.vp/BASELINE.json'))['stable_pass'])
 
 
 def tests_for(rel):
@@ -56,7 +57,7 @@ def run(rec):
     text = ast.unparse(tree)
     path = os.path.join(WT, rel)
     open(path, 'w').write(text)
-    tests = [t.replace('/repo', WT) for t in tests_for(rel)]
+    tests = [WT + t[len('/repo'):] for t in tests_for(rel)]
     try:
         if not tests:
             rec['tests'] = 'none'
@@ -64,14 +65,33 @@ def run(rec):
             return rec
         env = dict(os.environ, PYTHONPATH=os.path.join(WT, 'lib/python'), TMPDIR='/tmp/sa-surv-tmp-%s' % os.getpid())
         os.makedirs(env['TMPDIR'], exist_ok=True)
-        p = subprocess.run(['/venv/bin/python', '-m', 'pytest', '-q', '-x', '-p', 'no:cacheprovider', '--timeout=120']
-                           + tests, cwd=WT, stdout=subprocess.PIPE, stderr=subprocess.STDOUT, env=env,
-                           universal_newlines=True, timeout=600)
+        xml = os.path.join(env['TMPDIR'], 'junit.xml')
+        p = subprocess.run(['/venv/bin/python', '-m', 'pytest', '-q', '-p', 'no:cacheprovider', '--timeout=120',
+                            '--continue-on-collection-errors', '--junitxml=' + xml] + tests, cwd=WT,
+                           stdout=subprocess.PIPE, stderr=subprocess.STDOUT, env=env, universal_newlines=True,
+                           timeout=900)
         rec['tests'] = [os.path.basename(t) for t in tests]
-        rec['survives'] = p.returncode == 0
-        if p.returncode != 0:
-            tail = [l for l in p.stdout.splitlines() if l.startswith(('FAILED', 'ERROR'))][:1]
-            rec['killed_by'] = tail[0][:120] if tail else 'rc=%d' % p.returncode
+        import xml.etree.ElementTree as ET
+        ok, seen = set(), set()
+        try:
+            for tc in ET.parse(xml).iter('testcase'):
+                name = tc.get('classname') + '::' + tc.get('name')
+                seen.add(name)
+                if not list(tc):
+                    ok.add(name)
+        except Exception:           # pylint: disable=broad-except
+            pass
+        # judged against the pinned list of stable tests: a mutant is killed when a stable test of the files run
+        # no longer passes (tests that fail on the clean tree do not count)
+        mods = set(os.path.splitext(os.path.relpath(t, WT))[0].replace('/', '.')
+                   for t in tests)
+        mine = set(n for n in STABLE if n.split('::')[0].rsplit('.', 1)[0] in mods or
+                   n.split('::')[0] in mods)
+        lost = sorted(mine - ok)
+        rec['stable_run'] = len(mine)
+        rec['survives'] = not lost
+        if lost:
+            rec['killed_by'] = lost[0][-110:]
     except subprocess.TimeoutExpired:
         rec['survives'] = False
         rec['killed_by'] = 'timeout'
